@@ -91,7 +91,7 @@ def generate(tier, rng):
             for sep in ["", '"', "'"]:
                 cases.append(Case("xhome", [env, toks([(sep, w)])], {"gen": "h"}))
     # glob in the fixture directory, and whole expansions next to quoted arguments
-    pats = ["*", "a*", "*.txt", ".*", "*b*", "s*/*", "sub/*", "sub/.*", "nomatch*", "x*", "*y", "st*", "**", "a*a", "*é", "q*", "'*", "\"*\"", " *", "*/in", "[*"]
+    pats = ["*", "a*", "*.txt", ".*", "*b*", "s*/*", "sub/*", "sub/.*", "nomatch*", "x*", "*y", "st*", "**", "a*a", "*é", "q*", "'*", "\"*\"", " *", "*/in", "[*", "*id", "*hid", "sub/*2", "sub/*h2", ".h*", "*.", "./*", "../fixture/*d", "s*b/i*"]
     env = gens.env_field(vars={"A": "a*"}, exported={"HOME": "/h"})
     for p in pats:
         for sep in ["", '"', "'"]:
